@@ -244,7 +244,13 @@ def run(ctx):
             ctx.violation(f)
             return
 
-    st = ctx.stats
+    f = core.run_random(ctx, random_shard, 2400, 24000)
+    if f is not None:
+        ctx.violation(f)
+
+
+def random_shard(st, shard, nshards, payload):
+    from hypothesis import strategies as hs
     perms4 = list(itertools.permutations(bdd.VARS4))
     case = hs.fixed_dictionaries({
         'nv': hs.just(4),
@@ -271,6 +277,6 @@ def run(ctx):
             fr = check_errors(inp)
         return fr
 
-    f = core.run_hypothesis(ctx, case, body, ctx.pick(800, 12000))
+    f = core.hyp_run(payload['seed'] * 1000 + shard, case, body, payload['n'])
     if f is not None:
-        ctx.violation(f)
+        st.failure = f
